@@ -64,7 +64,9 @@ pub fn check(f: &FloatCase, st: &mut Stats) -> Result<(), Violation> {
     st.class("steps", rep.steps.len() as u64);
     st.comparisons += rep.steps.len() as u64;
     if special || px.iter().any(|p| p.iter().any(|x| *x < 0.0 || *x > 1.0)) {
-        st.nontrivial(&f.to_json("C13").to_string());
+        if !cfg!(miri) {
+            st.nontrivial(&f.to_json("C13").to_string());
+        }
     }
     st.sample(|| {
         let mut j = f.to_json("C13");
@@ -146,6 +148,22 @@ pub fn run(ctx: &Ctx, st: &mut Stats) -> Vec<Violation> {
     }
     v.extend(encode_sweep(ctx, st));
     v
+}
+
+/// cases for the Miri engine (small float histories, special values emphasised)
+pub fn corpus(seed: u64, n: usize) -> Vec<Value> {
+    let strat = float_strategy();
+    let mut out = Vec::new();
+    let mut round = 0u64;
+    while out.len() < n && round < 64 {
+        for f in sample_strategy(&strat, mix64(seed ^ round ^ 0x13), n) {
+            if f.w * f.h <= 8 && out.len() < n {
+                out.push(f.to_json("C13"));
+            }
+        }
+        round += 1;
+    }
+    out
 }
 
 pub fn replay(v: &Value) -> Result<(), String> {
